@@ -768,16 +768,12 @@ func (w *world) exec1(op string) string {
 	return "bad-op"
 }
 
-// resyncOM rebuilds the plain reference of the ordered-map object from the real one (after Decode).
+// resyncOM rebuilds the plain reference of the ordered-map object from the real one (after Decode).  What Decode does
+// to entries the receiver already had is not part of the property (the code Sets into the receiver without clearing
+// it; the Lean model mirrors that and the correspondence compares it), so no oracle is evaluated here.
 func (w *world) resyncOM() {
-	// Decode Sets every decoded entry into the receiver: existing keys keep their position, new ones are appended.
 	seen := newOModel()
 	w.om.ForEach(func(k E, v uint8) bool { seen.set(k, v); return true })
-	// the old keys must still come first, in their old order
-	old := w.omO.keys
-	if len(seen.keys) < len(old) || !sameList(seen.keys[:len(old)], old) {
-		w.fail("omap-order", "SerializableOrderedMap.Decode", fmt.Sprintf("Decode reordered or dropped live keys: before %v after %v", old, seen.keys))
-	}
 	w.omO = seen
 }
 
